@@ -18,7 +18,9 @@ RULE = ('Hypothesis-generated SimNet programs: worlds over {byte-stream, message
         'grants credit and runs to quiescence; in a sixth of the programs the client honours leases that are granted in '
         'portions of 0-3 requests. Plus wide programs: 17-48 requests with multi-fragment payloads all queued '
         'before the sender runs, so that many partial frames are in flight at once. Plus reconnect histories of one client '
-        'object in which the previous connection ended half way through a fragmented request or channel element. Oracle (reference model = the program): for every interaction the sequence of payloads '
+        'object in which the previous connection ended half way through a fragmented request or channel element. Plus last '
+        'words: an endpoint issues 1-4 fire-and-forget / metadata-push requests and closes at once, so that the bytes and the '
+        'end of the stream reach the peer together: every fire-and-forget written before close() reaches the handler once. Oracle (reference model = the program): for every interaction the sequence of payloads '
         'observed at the peer callback equals the sequence handed in, byte for byte, exactly once, nothing foreign '
         '(every byte pattern encodes interaction, direction and index). Non-trivial = >= 2 interactions overlapping in '
         'time and (a payload of >= 2 fragments or a read buffer smaller than a frame); distinct = program hash.')
@@ -209,10 +211,68 @@ def reconnect_prop(wrapped):
     return vs
 
 
+@st.composite
+def last_words(draw):
+    """One side says a few last things that need no answer (fire-and-forget, metadata-push) and closes at once, as a
+    command-line client does: what it wrote before closing arrives together with the end of the stream (possibly while
+    the receiver is still busy with an earlier request) and must still be delivered."""
+    frag = draw(st.sampled_from([None, None, 64]))
+    side = draw(st.sampled_from(['c', 's']))
+    cfg = {'msg': draw(st.booleans()), 'frag': [frag, frag], 'rbuf': draw(gen.rbufs())}
+    inter = []
+    ops = [['tick', 3], ['settle']]
+    if draw(st.booleans()):
+        # something answered first, so the connection is in ordinary use
+        inter.append({'k': 'rr', 'side': side, 'req': [4, 1], 'resp': {'mode': 'now', 'p': [3, 0]}})
+        ops += [['start'], ['settle']]
+    ops.append(['regime', 'manual'])
+    n = draw(st.integers(1, 4))
+    for _ in range(n):
+        k = draw(st.sampled_from(['fnf', 'fnf', 'mp']))
+        inter.append({'k': k, 'side': side, 'req': draw(gen.lens(frag, 3)) if k == 'fnf' else [0, draw(st.integers(1, 40))]})
+        ops.append(['start'])
+        if draw(st.booleans()):
+            ops.append(['tick', 1])
+    ops += [['tick', draw(st.integers(2, 4))], ['close', side]]
+    chunks = draw(st.sampled_from(['all', 'all', 'split']))
+    if chunks == 'split' and not cfg['msg']:
+        ops.append(['deliver', side, draw(st.integers(1, 40))])
+        ops.append(['tick', 1])
+    ops += [['deliver', side, None], ['tick', 4], ['deliver', side, None], ['tick', 4], ['settle']]
+    return {'last_words': True, 'cfg': cfg, 'inter': inter, 'ops': ops, 'heal': False}
+
+
+def last_words_prop(program):
+    tr = run_program(program)
+    vs = []
+    log = tr.world.log
+    closed = next((e['seq'] for e in log if e['ev'] == 'close_call'), None)
+    for uid in tr.scn.started:
+        spec = tr.scn.st[uid]['spec']
+        if spec['k'] != 'fnf':
+            continue
+        sent = next((e for e in log if e['ev'] == 'fnf_sent' and e.get('uid') == uid), None)
+        if sent is None or sent.get('cancelled') or closed is None or sent['seq'] > closed:
+            continue  # not handed to the transport before close() was called: nothing is owed
+        d, m = monitors.A.payload_bytes(uid, monitors.A.TAG_REQ, 0, spec['req'])
+        got = [e for e in log if e['ev'] == 'handler' and e.get('uid') == uid and e['side'] == monitors.OTHER[spec['side']]]
+        if len(got) != 1 or (got[0]['data'], got[0]['metadata']) != (d, m):
+            vs.append(common.viol('request_lost' if not got else 'request_corrupted',
+                                  '%s:last_words:%s' % (PID, 'lost' if not got else ('duplicated' if len(got) > 1 else 'corrupted')),
+                                  uid=uid, k='fnf', n=len(got), sent=[len(d), len(m)]))
+    info['nt'] = sum(1 for i in program['inter'] if i['k'] in ('fnf', 'mp')) >= 2
+    info['classes'] = ['part=last_words', 'closing_side=%s' % program['ops'][[o[0] for o in program['ops']].index('close')][1],
+                       'framing=%s' % ('message' if program['cfg']['msg'] else 'bytes')]
+    return vs
+
+
 def shard(tier, seed, n, wide=False):
     common.use_repo()
     stats = common.Stats()
     known = common.Known(PID)
+    if wide == 'last_words':
+        common.hyp_search(stats, known, last_words(), last_words_prop, n, seed, classify=classify, shrink=True)
+        return stats
     if wide == 'reconnect':
         from harness.checks import c05
         common.hyp_search(stats, known, c05.reconnect_cases(), reconnect_prop, n, seed, classify=classify, shrink=False)
@@ -238,6 +298,7 @@ def run(tier, seed):
     jobs = [dict(tier=tier, seed=0, n=None)] + [dict(tier=tier, seed=s, n=total // nsh) for s in common.shard_seeds(seed, nsh)]
     jobs += [dict(tier=tier, seed=s + 17, n=(32 if tier == 'quick' else 800) // 4, wide=True) for s in common.shard_seeds(seed, 4)]
     jobs += [dict(tier=tier, seed=s + 23, n=(160 if tier == 'quick' else 4000) // 4, wide='reconnect') for s in common.shard_seeds(seed, 4)]
+    jobs += [dict(tier=tier, seed=s + 37, n=(320 if tier == 'quick' else 8000) // 4, wide='last_words') for s in common.shard_seeds(seed, 4)]
     stats = common.run_shards(__name__, 'shard', jobs)
     return common.finish(PID, tier, seed, LEVEL, RULE, stats, t0, ASSUMPTIONS)
 
@@ -245,4 +306,6 @@ def run(tier, seed):
 def replay(path):
     common.use_repo()
     case = common.load_replay(path)
+    if case.get('last_words'):
+        return common.report_replay(PID, path, last_words_prop(case))
     return common.report_replay(PID, path, reconnect_prop(case) if 'reconnect' in case else prop(case))
